@@ -319,6 +319,7 @@ def main(argv):
             for k in tot:
                 tot[k] += stats[k]
             nontriv += sum(1 for a, b in zip(ops, ops[1:]) if b == ("build",) and a != ("build",))
+            fails.sort(key=lambda f: not f[1])
             for what, is_oracle in fails[:2]:
                 if is_oracle:
                     ck.oracle_violation(what, text, name="hist")
